@@ -34,7 +34,6 @@ package ucon
 //@ spec func c04Prob(threshold: int, total: int) float64
 //@ spec func c04VRF(pk: int, seed: common.Hash, role: int, index: int, proof: Slice) common.Hash
 //@ spec func c04VRFOK(pk: int, seed: common.Hash, role: int, index: int, proof: Slice) bool
-//@ spec func c04MaxPriority(h: common.Hash, j: int) common.Hash
 
 // choose: the seat count is always between 0 and the stake; the all-ones hash selects the whole stake, the zero hash nothing.
 //@ func choose props C04
@@ -47,6 +46,8 @@ package ucon
 // only WHICH computation produced the number): the lower-tail target is the float64 rounding of the 256-bit ratio hash/(2^256-1),
 // and the upper-tail value is the float64 rounding of 1 - ratio computed in big.Float precision BEFORE rounding — computing it
 // from the already rounded target loses the VRF output's low bits exactly for outputs around 2^256-1.
+// (hb is the whole 32-byte VRF output read as a big-endian integer — not a prefix, not another hash)
+//@ assert before call (*math/big.Int).Cmp#1: [vrf-output-as-integer] big(hb) == c04HashInt(hash)
 //@ assert before call search#2: [upper-tail-from-exact-ratio] invValue == c04F64(c04FSub(c04FromF(f64(1)), c04FQuo(c04FromI(big(hb)), c04FromI(2^256 - 1))))
 //@ assert before call (gonum.org/v1/gonum/stat/distuv.Binomial).Mean: [target-from-exact-ratio] target == c04F64(c04FQuo(c04FromI(big(hb)), c04FromI(2^256 - 1)))
 //@ ensures [range]   0 <= result && result <= big(w)
@@ -142,12 +143,63 @@ package ucon
 
 // Proposer priority: accepted only if the claimed seat count is the recomputed one AND the claimed priority is the
 // priority computed from the VRF output and that seat count.
-//@ effectfree (*math/big.Int).Bytes github.com/youchainhq/go-youchain/crypto.Keccak256Hash github.com/youchainhq/go-youchain/common.Big1
-//@ spec func c04Priority(h: common.Hash, j: int) common.Hash
+// The seat hashes: c04SeatHash(h, i) is Keccak-256 of the 32 bytes of the VRF output h followed by the minimal big-endian bytes
+// of the seat index i (what (*big.Int).Bytes returns: c04BytesLen(i) bytes, the k-th being c04ByteAt(i, k)); c04HashInt(x) is a
+// 32-byte hash read as a big-endian integer (what (*big.Int).SetBytes computes). Keccak and the byte/integer conversions stay
+// uninterpreted: the three library contracts below only say WHICH function of WHICH bytes a call computes.
+//@ spec func c04SeatHash(h: common.Hash, i: int) common.Hash
+//@ spec func c04HashInt(x: common.Hash) int
+//@ spec func c04BytesLen(n: int) int
+//@ spec func c04ByteAt(n: int, k: int) int
+//@ spec func c04SeatInput(s: Slice, h: common.Hash, n: int) bool = len(s) == 32 + c04BytesLen(n) &&
+//@         (forall q: int :: 0 <= q && q < 32 ==> s[q] == h[q]) &&
+//@         (forall q: int :: 0 <= q && q < c04BytesLen(n) ==> s[32 + q] == c04ByteAt(n, q))
+// equality of two hashes as 32-byte strings (bound variables of a macro must differ from those at its uses: no renaming)
+//@ spec func c04SameHash(a: common.Hash, b: common.Hash) bool = forall q: int :: 0 <= q && q < 32 ==> a[q] == b[q]
+
+//@ func (*math/big.Int).Bytes props C04
+//@ trusted
+//@ requires [nonnil] x != nil
+//@ modifies nothing
+//@ ensures [minimal-big-endian] fresh(result) && len(result) == c04BytesLen(big(x)) &&
+//@         (forall k: int :: 0 <= k && k < len(result) ==> result[k] == c04ByteAt(big(x), k))
+
+//@ func github.com/youchainhq/go-youchain/crypto.Keccak256Hash props C04
+//@ trusted
+//@ pure
+//@ ensures [keccak-of-seat-input] forall hh: common.Hash, n: int :: { c04SeatHash(hh, n) }
+//@         len(data) == 1 && c04SeatInput(data[0], hh, n) ==> result == c04SeatHash(hh, n)
+
+//@ func (*math/big.Int).SetBytes props C04
+//@ trusted
+//@ requires [nonnil] z != nil
+//@ modifies big(z)
+//@ opt noalloc
+//@ ensures result == z && big(z) >= 0
+//@ ensures [value-of-hash] forall hh: common.Hash :: { c04HashInt(hh) }
+//@         len(buf) == 32 && (forall k: int :: 0 <= k && k < 32 ==> buf[k] == hh[k]) ==> big(z) == c04HashInt(hh)
+//@ ensures [zero-iff-zero-bytes] big(z) == 0 <==> (forall k: int :: 0 <= k && k < len(buf) ==> buf[k] == 0)
+
 //@ func computePriority props C04
+//@ panics none
 //@ requires [nonnil] j != nil
-//@ modifies all
-//@ ensures [function-of-inputs] assumed result == c04Priority(hash, old(big(j)))
+//@ requires [seats] 0 <= big(j)
+//@ loop i invariant [counter] i != nil && i != j && 0 <= big(i) && big(i) <= big(j) + 1 && big(j) == old(big(j))
+//@ loop i invariant [hash-unchanged] hash == old(hash)
+//@ loop i invariant [big-frame] forall p: *big.Int :: { old(big(p)) } old(allocated(p)) ==> big(p) == old(big(p))
+//@ loop i invariant [bytes-frame] forall p: *common.Hash :: { old(elems(p)) } old(allocated(p)) ==> elems(p) == old(elems(p))
+//@ loop i invariant [slices-frame] forall p: *[1][]byte :: { old(elems(p)) } old(allocated(p)) ==> elems(p) == old(elems(p))
+//@ loop i invariant [max-nonnil] maxInt != nil
+//@ loop i invariant [max-so-far] forall k: int :: { c04SeatHash(hash, k) } 0 <= k && k < big(i) ==> big(maxInt) >= c04HashInt(c04SeatHash(hash, k))
+//@ loop i invariant [argmax] big(maxInt) == c04HashInt(max)
+//@ loop i invariant [max-is-a-seat-hash] (big(i) == 0 && big(maxInt) == 0 && c04SameHash(max, zero(common.Hash))) ||
+//@         (exists k: int :: 0 <= k && k < big(i) && c04SameHash(max, c04SeatHash(hash, k)))
+//@ loop i decreases big(j) + 1 - big(i)
+//@ assert before call github.com/youchainhq/go-youchain/crypto.Keccak256Hash: [seat-input] len(a0) == 1 && c04SeatInput(a0[0], hash, big(i))
+//@ assert after call github.com/youchainhq/go-youchain/crypto.Keccak256Hash: [seat-hash] ret == c04SeatHash(hash, big(i))
+//@ modifies nothing
+//@ ensures [priority-is-a-seat-hash] exists k: int :: 0 <= k && k <= old(big(j)) && c04SameHash(result, c04SeatHash(hash, k))
+//@ ensures [priority-is-largest-seat-hash] forall k: int :: { c04SeatHash(hash, k) } 0 <= k && k <= old(big(j)) ==> c04HashInt(result) >= c04HashInt(c04SeatHash(hash, k))
 
 // reflect.DeepEqual on two 32-byte arrays is array equality (trusted).
 //@ func reflect.DeepEqual props C04
@@ -161,10 +213,21 @@ package ucon
 //@ assume [max-hash-constant] big(maxVrfHashValue) == 2^256 - 1
 //@ let msg = c04M(seed, role, index)
 //@ let out = c04VRFOut(pk, msg, c04ProofId(proof))
-//@ modifies all, c04BF
+//@ modifies c04BF
 //@ ensures [accept-implies-valid-proof] result0 ==> result1 == nil && c04VRFValid(pk, msg, c04ProofId(proof))
 //@ ensures [accept-implies-seat-count] result0 ==> subUsers == c04Choose(out, old(big(stake)), c04P(threshold, old(big(totalStake))))
-//@ ensures [accept-implies-priority]   result0 ==> priority == c04Priority(out, subUsers)
+// "A proposer priority verifies only if it is the largest hash over the winner's seats" (seat hashes 0..subUsers of the VRF output,
+// compared as 256-bit big-endian integers):
+//@ ensures [accept-implies-priority-is-a-seat-hash] result0 ==> exists k: int :: 0 <= k && k <= subUsers && c04SameHash(priority, c04SeatHash(out, k))
+//@ ensures [accept-implies-priority-is-largest-seat-hash] result0 ==> forall k: int :: { c04SeatHash(out, k) } 0 <= k && k <= subUsers ==>
+//@         c04HashInt(priority) >= c04HashInt(c04SeatHash(out, k))
+
+// The issuer's side: the priority a proposer announces for a VRF output and j seats.
+//@ func VrfComputePriority props C04
+//@ panics none
+//@ modifies nothing
+//@ ensures [priority-is-a-seat-hash] exists k: int :: 0 <= k && k <= j && c04SameHash(result, c04SeatHash(hash, k))
+//@ ensures [priority-is-largest-seat-hash] forall k: int :: { c04SeatHash(hash, k) } 0 <= k && k <= j ==> c04HashInt(result) >= c04HashInt(c04SeatHash(hash, k))
 
 // ---------------------------------------------------------------------------------------------------------
 // The wrappers the consensus engine actually calls (sortition_verifier.go): success means the VRF check succeeded,
@@ -188,3 +251,66 @@ package ucon
 //@ assert before call VrfVerifySortition: [binds-message] a2 == data.RoundIndex && a3 == data.Step && a4 == data.Proof && a5 == data.Votes
 //@ ghost after call VrfVerifySortition: c04SortOK := ret0 && ret1 == nil
 //@ ensures [accept-implies-verified] result == nil ==> c04SortOK
+
+// ---------------------------------------------------------------------------------------------------------
+// The issuer's side (sortition_mgr.go -> VrfSortition -> sortition): the credential a node announces is the VRF of exactly the message
+// MakeM(seed, step, round index) under its own key, with the seat count `choose` gives for that output, its stake and the probability
+// threshold/total — the same named functions the verifier's clauses use, so "the verifier recomputes the same j" is agreement of two
+// verified postconditions. VRF completeness (an honest evaluation is a valid proof of its own output) is the cryptographic assumption.
+//@ spec func c04PubOf(sk: int) int
+
+//@ func (github.com/youchainhq/go-youchain/crypto/vrf.PrivateKey).Evaluate props C04
+//@ trusted
+//@ pure
+//@ ensures [vrf-completeness] c04VRFValid(c04PubOf(recv), c04Msg(m), c04ProofId(result1)) && result0 == c04VRFOut(c04PubOf(recv), c04Msg(m), c04ProofId(result1))
+
+//@ func sortition props C04
+//@ requires [nonnil] w != nil
+//@ requires 0 <= big(w) && big(w) < 2^62
+//@ requires big(maxVrfHashValue) == 2^256 - 1
+//@ modifies c04BF
+//@ ensures [issued-output] c04VRFValid(c04PubOf(sk), c04Msg(m), c04ProofId(result1)) && result0 == c04VRFOut(c04PubOf(sk), c04Msg(m), c04ProofId(result1))
+//@ ensures [issued-seat-count] result2 == c04Choose(result0, big(w), p) && 0 <= result2 && result2 <= big(w)
+
+//@ func VrfSortition props C04
+//@ requires [nonnil] stake != nil && totalStake != nil
+//@ assume [stake-fits-uint32] 0 <= big(stake) && big(stake) < 2^32
+//@ assume [max-hash-constant] big(maxVrfHashValue) == 2^256 - 1
+//@ let msg = c04M(seed, role, index)
+//@ modifies c04BF
+//@ ensures [issuer-output-is-vrf-of-message] big(totalStake) != 0 ==> c04VRFValid(c04PubOf(sk), msg, c04ProofId(result1)) && result0 == c04VRFOut(c04PubOf(sk), msg, c04ProofId(result1))
+//@ ensures [issuer-seat-count] big(totalStake) != 0 ==> result2 == c04Choose(result0, big(stake), c04P(threshold, big(totalStake)))
+//@ ensures [issuer-seat-range] result2 <= big(stake)
+//@ ensures [issuer-no-total-stake] big(totalStake) == 0 ==> result2 == 0
+
+// The two places that issue credentials: the priority announced is computed from the VRF output and the seat count VrfSortition just
+// returned, the proposer credential is issued for the proposal step and the caller's round index, and the announced proof / seat count
+// are the issued ones.
+//@ ghost var c04IssuedOut: common.Hash
+//@ ghost var c04IssuedSeats: int
+//@ ghost var c04IssuedProof: Slice
+//@ ghost var c04Issued: bool          // a credential has been issued in this call
+
+//@ func (*SortitionManager).isProposer props C04
+//@ modifies all, c04BF, c04IssuedOut, c04IssuedSeats, c04IssuedProof, c04Issued
+//@ ghost at entry: c04Issued := false
+//@ ghost after call VrfSortition: c04Issued := true
+//@ assert before call VrfSortition: [proposer-credential-for-proposal-step] a2 == roundIndex && a3 == UConStepProposal
+//@ ghost after call VrfSortition: c04IssuedOut := ret0
+//@ ghost after call VrfSortition: c04IssuedSeats := ret2
+//@ ghost after call VrfSortition: c04IssuedProof := ret1
+//@ assert before call VrfComputePriority: [priority-of-issued-credential] a0 == c04IssuedOut && a1 == c04IssuedSeats
+//@ assert before store SubUsers: [announces-issued-seat-count] c04Issued && value == c04IssuedSeats
+//@ assert before store SortitionProof: [announces-issued-proof] value == c04IssuedProof
+
+//@ func (*SortitionManager).isValidator props C04
+//@ modifies all, c04BF, c04IssuedOut, c04IssuedSeats, c04IssuedProof, c04Issued
+//@ ghost at entry: c04Issued := false
+//@ ghost after call VrfSortition: c04Issued := true
+//@ assert before call VrfSortition: [credential-for-requested-step] a2 == roundIndex && a3 == step
+//@ ghost after call VrfSortition: c04IssuedOut := ret0
+//@ ghost after call VrfSortition: c04IssuedSeats := ret2
+//@ ghost after call VrfSortition: c04IssuedProof := ret1
+//@ assert before call VrfComputePriority: [priority-of-issued-credential] a0 == c04IssuedOut && a1 == c04IssuedSeats
+//@ assert before store SubUsers: [announces-issued-seat-count] if c04Issued then value == c04IssuedSeats else value == 0   // no credential: the "not a validator" view
+//@ assert before store SortitionProof: [announces-issued-proof] value == c04IssuedProof
